@@ -204,31 +204,49 @@ def ph_concl(p, pos, m):
     return forall(0, m, lambda x: conj(le(0, pos[x]), lt(pos[x], m), eq(p[pos[x]], x)))
 
 
-def _full_all_gray_vcs(h):
+def _ph_vcs(p, pos, m):
     import z3
-    from pyvc.engine import fresh_list, INT
-    p, pos = fresh_list("ph.p", "int"), fresh_list("ph.pos", "int")
-    m = z3.Int("ph.m")
+    from pyvc.engine import fresh_list
     y = p[m]
     p2, pos2 = fresh_list("ph.p2", "int"), fresh_list("ph.pos2", "int")
     k = z3.Int("ph.k")
     defs = [z3.ForAll([k], p2[k] == z3.If(p[k] == m, y, p[k]), patterns=[p2[k]]),
             pos2.arr == z3.Store(pos.arr, y, pos[m])]
-    step_assume = [m >= 0, ph_hyp(p, pos, m + 1)] + defs + [implies(ph_hyp(p2, pos2, m), ph_concl(p2, pos2, m))]
+    return [
+        ("base", [eq(m, 0)], ph_concl(p, pos, m)),
+        ("step_hyp", [ge(m, 0), ph_hyp(p, pos, m + 1)] + defs, ph_hyp(p2, pos2, m)),
+        ("step", [ge(m, 0), ph_hyp(p, pos, m + 1)] + defs + [ph_concl(p2, pos2, m)], ph_concl(p, pos, m + 1)),
+    ]
+
+
+lemma("pigeonhole", params={"p": "list[int]", "pos": "list[int]", "m": "int"}, props=PROPS,
+      hyp=lambda p, pos, m: [("m", ge(m, 0)), ("inj", ph_hyp(p, pos, m))],
+      conclusion=lambda p, pos, m: ph_concl(p, pos, m),
+      vcs=_ph_vcs)
+
+
+def _full_all_gray_vcs(h):
     full = eq(h.last, h.size - 1)
     use_assume = [shape(h), index_inv(h), full, implies(ph_hyp(h.p, h.pos, h.size), ph_concl(h.p, h.pos, h.size))]
-    return [
-        ("ph_base", [], ph_concl(p, pos, 0)),
-        ("ph_step_hyp", [m >= 0, ph_hyp(p, pos, m + 1)] + defs, ph_hyp(p2, pos2, m)),
-        ("ph_step", step_assume + [ph_concl(p2, pos2, m)], ph_concl(p, pos, m + 1)),
-        ("use", use_assume, forall(0, h.size, lambda x: eq(h.color[x], GRAY))),
-    ]
+    return [("use_pigeonhole", use_assume, forall(0, h.size, lambda x: eq(h.color[x], GRAY)))]
 
 
 lemma("full_all_gray", params={"h": "obj:Heap"}, props=PROPS,
       hyp=lambda h: [("shape", shape(h)), ("index", index_inv(h))],
       conclusion=lambda h: implies(eq(h.last, h.size - 1), forall(0, h.size, lambda x: eq(h.color[x], GRAY))),
       vcs=_full_all_gray_vcs)
+
+
+def inj_hyp(f, g, a, b):
+    return forall(0, a, lambda i: conj(le(0, f[i]), lt(f[i], b), eq(g[f[i]], i)))
+
+
+lemma("inj_card", params={"f": "list[int]", "g": "list[int]", "a": "int", "b": "int"}, props=PROPS,
+      hyp=lambda f, g, a, b: [("nonneg", conj(ge(a, 0), ge(b, 0))), ("inj", inj_hyp(f, g, a, b))],
+      conclusion=lambda f, g, a, b: le(a, b),
+      vcs=lambda f, g, a, b: [("use_pigeonhole",
+                               [ge(a, 0), ge(b, 0), inj_hyp(f, g, a, b), gt(a, b),
+                                implies(ph_hyp(f, g, b + 1), ph_concl(f, g, b + 1))], False)])
 
 
 # ---------------------------------------------------------------- insert / remove / update
